@@ -737,6 +737,7 @@ class Wild(Family):
             Doc('wd-skip-wrongns', D('', None, '<w:known>1</w:known>'), 'fault:wildcard'),
             Doc('wd-tail-target', D(tail=' <w:known>1</w:known>\n'), 'fault:wildcard'),
             Doc('wd-tail-many', D(tail=''.join(f' <o:t n="{i}"/>\n' for i in range(15)))),
+            Doc('wd-tail-nested', D('<o:x><o:y><o:z/></o:y></o:x>', tail=' <o:t1><o:d1><o:d2>t</o:d2></o:d1></o:t1>\n <o:t2/>\n')),
         ]
 
 
@@ -1105,6 +1106,66 @@ class Shadow(Family):
         ]
 
 
+class IdFields(Family):
+    """Identity fields of date / duration / list types and a key reference whose key scope is optional."""
+    name = 'idfields'
+    paths = ('sec', 'ref')
+
+    def sources(self, version):
+        return {'idfields.xsd': f'''<xs:schema {XS}>
+ <xs:element name="r">
+  <xs:complexType><xs:sequence>
+   <xs:element name="sec" minOccurs="0" maxOccurs="unbounded">
+    <xs:complexType><xs:sequence>
+     <xs:element name="it" maxOccurs="unbounded">
+      <xs:complexType>
+       <xs:attribute name="k" type="xs:int" use="required"/>
+       <xs:attribute name="d" type="xs:date"/>
+       <xs:attribute name="u" type="xs:duration"/>
+       <xs:attribute name="t" type="xs:dateTime"/>
+      </xs:complexType>
+     </xs:element>
+    </xs:sequence></xs:complexType>
+    <xs:key name="K"><xs:selector xpath="it"/><xs:field xpath="@k"/></xs:key>
+    <xs:unique name="UD"><xs:selector xpath="it"/><xs:field xpath="@d"/></xs:unique>
+    <xs:unique name="UU"><xs:selector xpath="it"/><xs:field xpath="@u"/><xs:field xpath="@t"/></xs:unique>
+   </xs:element>
+   <xs:element name="ref" minOccurs="0" maxOccurs="unbounded">
+    <xs:complexType><xs:attribute name="to" type="xs:int" use="required"/></xs:complexType>
+   </xs:element>
+  </xs:sequence></xs:complexType>
+  <xs:keyref name="R" refer="K"><xs:selector xpath="ref"/><xs:field xpath="@to"/></xs:keyref>
+ </xs:element>
+</xs:schema>'''}
+
+    def _doc(self, secs, refs=()):
+        out = [_decl(), '<r>\n']
+        for sec in secs:
+            out.append(' <sec>' + ''.join('<it' + ''.join(f' {k}="{v}"' for k, v in it.items()) + '/>' for it in sec)
+                       + '</sec>\n')
+        for t in refs:
+            out.append(f' <ref to="{t}"/>\n')
+        out.append('</r>\n')
+        return ''.join(out)
+
+    def docs(self, rng):
+        D = self._doc
+        return [
+            Doc('if-valid-a', D([[{'k': 1, 'd': '2020-01-01', 'u': 'P1Y', 't': '2020-01-01T00:00:00Z'},
+                                  {'k': 2, 'd': '2020-01-02', 'u': 'P1Y', 't': '2020-01-01T01:00:00Z'}]], [1, 2])),
+            Doc('if-valid-noscope-norefs', D([], [])),
+            Doc('if-valid-tz', D([[{'k': 1, 'd': '2020-01-01Z'}, {'k': 2, 'd': '2020-01-01+05:00'}]], [2])),
+            Doc('if-dup-date', D([[{'k': 1, 'd': '2020-01-01'}, {'k': 2, 'd': '2020-01-01'}]]), 'fault:dup-unique'),
+            Doc('if-dup-duration', D([[{'k': 1, 'u': 'P12M', 't': '2020-01-01T00:00:00'},
+                                       {'k': 2, 'u': 'P1Y', 't': '2020-01-01T00:00:00'}]]), 'fault:dup-unique'),
+            Doc('if-ref-noscope', D([], [1]), 'fault:keyref'),
+            Doc('if-ref-dangling', D([[{'k': 1}]], [3]), 'fault:keyref'),
+            Doc('if-hugeyear-field', D([[{'k': 1, 'd': '99999999999-01-01'}, {'k': 2, 'd': '2020-01-01'}]]), 'fault:lexical'),
+            Doc('if-hugeduration-field', D([[{'k': 1, 'u': 'P99999999999999Y'}, {'k': 2, 'u': 'P1Y'}]]), 'fault:lexical'),
+            Doc('if-baddate-field', D([[{'k': 1, 'd': '2020-02-30'}, {'k': 2, 'd': '2020-02-30'}]]), 'fault:lexical'),
+        ]
+
+
 class Big(Family):
     """Width-parameterised documents that cross the 16 KiB read size of iterparse."""
     name = 'big'
@@ -1178,4 +1239,4 @@ def with_double_faults(docs, rng, n=4):
 
 
 FAMILIES = {f.name: f for f in (Ids(), Keys(), XsiType(), Subst(), Fixed(), Wild(), Ns(), Mixed(),
-                                Assert11(), Recur(), Multi(), Multi2(), Shadow(), Big())}
+                                Assert11(), Recur(), Multi(), Multi2(), Shadow(), IdFields(), Big())}
